@@ -78,3 +78,86 @@ Proof.
   pose proof (P KCounter) as P1. pose proof (P KGauge) as P2. pose proof (P KHistogram) as P3.
   cbn [smap] in P1, P2, P3. rewrite P1, P2, P3. reflexivity.
 Qed.
+
+(* ---- what [spec_ok] means ---- *)
+Lemma pair_eqb_eq x y : pair_eqb x y = true -> x = y.
+Proof.
+  unfold pair_eqb. intros H. apply andb_true_iff in H. destruct H as [H1 H2].
+  apply N.eqb_eq in H1, H2. destruct x, y; cbn in *; congruence.
+Qed.
+Lemma triple_eqb_eq x y : triple_eqb x y = true -> x = y.
+Proof.
+  unfold triple_eqb. intros H. apply andb_true_iff in H. destruct H as [H1 H2].
+  apply pair_eqb_eq in H1. apply N.eqb_eq in H2. destruct x, y; cbn in *; congruence.
+Qed.
+
+Lemma list_eqb_Forall2 {A} (eqb : A -> A -> bool) (R : A -> A -> Prop) :
+  (forall x y, eqb x y = true -> R x y) -> forall a b, list_eqb eqb a b = true -> Forall2 R a b.
+Proof.
+  intros H. induction a as [|x r IH]; intros [|y r'] E; cbn in E; try discriminate; [constructor|].
+  apply andb_true_iff in E. destruct E as [E1 E2]. constructor; [apply H; exact E1|apply IH; exact E2].
+Qed.
+Lemma list_eqb_eq {A} (eqb : A -> A -> bool) :
+  (forall x y, eqb x y = true -> x = y) -> forall a b, list_eqb eqb a b = true -> a = b.
+Proof.
+  intros H. induction a as [|x r IH]; intros [|y r'] E; cbn in E; try discriminate; [reflexivity|].
+  apply andb_true_iff in E. destruct E as [E1 E2]. rewrite (H _ _ E1), (IH _ E2). reflexivity.
+Qed.
+
+Lemma count_cons y x l : count_pair y (x :: l) = (if pair_eqb y x then 1 else 0) + count_pair y l.
+Proof. unfold count_pair. cbn [filter]. destruct (pair_eqb y x); reflexivity. Qed.
+Lemma count_app y l1 l2 : count_pair y (l1 ++ l2) = count_pair y l1 + count_pair y l2.
+Proof. unfold count_pair. rewrite filter_app, app_length. reflexivity. Qed.
+
+Lemma perm_eqb_perm : forall a b, perm_eqb a b = true -> Permutation a b.
+Proof.
+  induction a as [|x a IH]; intros b H; unfold perm_eqb in H; apply andb_true_iff in H; destruct H as [HL HC].
+  - apply Nat.eqb_eq in HL. destruct b; [constructor|discriminate].
+  - apply Nat.eqb_eq in HL. cbn [forallb] in HC. apply andb_true_iff in HC. destruct HC as [Hx Ha].
+    apply Nat.eqb_eq in Hx. rewrite count_cons, pair_eqb_refl in Hx.
+    assert (Hin : In x b).
+    { unfold count_pair in Hx. destruct (filter (pair_eqb x) b) as [|x' f] eqn:F; [cbn in Hx; lia|].
+      assert (I : In x' (filter (pair_eqb x) b)) by (rewrite F; left; reflexivity).
+      apply filter_In in I. destruct I as [I E]. apply pair_eqb_eq in E. subst x'. exact I. }
+    apply in_split in Hin. destruct Hin as (b1 & b2 & ->).
+    apply Permutation_cons_app. apply IH. unfold perm_eqb. apply andb_true_iff. split.
+    + apply Nat.eqb_eq. rewrite app_length in *. cbn [length] in HL. lia.
+    + apply forallb_forall. intros y Hy. rewrite forallb_forall in Ha. specialize (Ha y Hy).
+      apply Nat.eqb_eq in Ha. apply Nat.eqb_eq.
+      rewrite count_cons, count_app, count_cons in Ha. rewrite count_app. lia.
+Qed.
+
+Definition cres_equiv (a b : cres) : Prop :=
+  match a, b with CL l, CL l' => Permutation l l' | _, _ => a = b end.
+
+Lemma cres_eqb_equiv a b : cres_eqb a b = true -> cres_equiv a b.
+Proof.
+  destruct a as [s|[s|]|x| |l], b as [s'|[s'|]|y| |l']; cbn; intros H; try discriminate; try reflexivity.
+  - apply N.eqb_eq in H. congruence.
+  - apply N.eqb_eq in H. congruence.
+  - apply eqb_prop in H. congruence.
+  - apply perm_eqb_perm. exact H.
+Qed.
+
+Theorem spec_ok_sound : forall c o, spec_ok c o = true ->
+  consistent (okeys (snd (fst o))) = true /\
+  let x := fst (fst o) in
+  let tr := fst (fst (fst (fst x))) in
+  let s := run_spec c (map tid tr) in
+  fst (fst (fst (fst s))) = tr /\
+  Forall2 (Forall2 cres_equiv) (snd (fst (fst (fst s)))) (snd (fst (fst (fst x)))) /\
+  snd (fst (fst s)) = snd (fst (fst x)) /\
+  snd (fst s) = snd (fst x) /\
+  Forall2 (@Permutation (N * N)) (snd s) (snd x).
+Proof.
+  intros c [[x h] n] H. unfold spec_ok in H. destruct x as [[[[tr res] done] cons] fin].
+  apply andb_true_iff in H. destruct H as [HC H]. cbn [fst snd]. split; [exact HC|].
+  change (map (fun e : N * N => N.to_nat (fst e)) tr) with (map tid tr) in H.
+  destruct (run_spec c (map tid tr)) as [[[[tr' res'] done'] cons'] fin']. cbn [fst snd].
+  unfold obs_eqb in H. repeat (apply andb_true_iff in H; destruct H as [H ?]).
+  split; [apply (list_eqb_eq pair_eqb pair_eqb_eq); exact H|].
+  split; [apply (list_eqb_Forall2 (list_eqb cres_eqb)) with (2 := H3); intros a b; apply list_eqb_Forall2; apply cres_eqb_equiv|].
+  split; [apply eqb_prop; exact H2|].
+  split; [apply (list_eqb_eq triple_eqb triple_eqb_eq); exact H1|].
+  apply (list_eqb_Forall2 perm_eqb) with (2 := H0). apply perm_eqb_perm.
+Qed.
